@@ -56,4 +56,198 @@ Section Nested.
     rewrite (with_cell_in n _ i (eq_trans (upd_length _ _ _ _) Hlen) Hn) by assumption.
     rewrite upd_same by assumption. nstep. rewrite upd_upd. reflexivity.
   Qed.
+
+  (** the whole `g(qs[i][j])`: every cell is back where it was *)
+  Lemma lend_nested_restores_l : forall g v,
+    0 <= i < Z.of_nat n -> 0 <= j < Z.of_nat m -> length inner = m ->
+    nth_error cells (Z.to_nat i) = Some (Some (VArr inner)) ->
+    nth_error inner (Z.to_nat j) = Some (Some v) ->
+    run_outs (seq_lend_nested n m (OGate g)) outs_lend_nested [VArr cells; VInt i; VInt j] = Ok [VArr cells].
+  Proof.
+    intros g v Hi Hj Hlm Hci Hcj.
+    pose proof (nth_error_lt _ _ _ _ Hci) as Hki. pose proof (nth_error_lt _ _ _ _ Hcj) as Hkj.
+    unfold seq_lend_nested, seq_lend_nested_at, seq_nested_pre, seq_nested_post, outs_lend_nested, run_outs.
+    nstep. nop.
+    unfold op_sem at 1. cbn [sem_borrow]. rewrite (with_cell_in n cells i Hlen Hn) by assumption.
+    rewrite Hci. nstep. nop.
+    unfold op_sem at 1. cbn [sem_borrow]. rewrite (with_cell_in m inner j Hlm Hm) by assumption.
+    rewrite Hcj. nstep. nop.
+    unfold op_sem at 1. cbn [sem_return].
+    rewrite (with_cell_in n _ i (eq_trans (upd_length _ _ _ _) Hlen) Hn) by assumption.
+    rewrite upd_same by assumption. nstep. rewrite upd_upd.
+    unfold op_sem at 1. nstep. nop.
+    unfold op_sem at 1. cbn [sem_borrow].
+    rewrite (with_cell_in n _ i (eq_trans (upd_length _ _ _ _) Hlen) Hn) by assumption.
+    rewrite upd_same by assumption. nstep. nop.
+    unfold op_sem at 1. cbn [sem_return].
+    rewrite (with_cell_in m _ j (eq_trans (upd_length _ _ _ _) Hlm) Hm) by assumption.
+    rewrite upd_same by assumption. nstep. nop.
+    unfold op_sem at 1. cbn [sem_return].
+    rewrite (with_cell_in n _ i (eq_trans (upd_length _ _ _ _) (eq_trans (upd_length _ _ _ _) Hlen)) Hn) by assumption.
+    rewrite upd_same by (rewrite upd_length; assumption). nstep.
+    rewrite !upd_upd. rewrite (upd_id _ inner) by assumption. rewrite upd_id by assumption. reflexivity.
+  Qed.
+
+  (** an invalid outer index panics before anything is touched; so does an invalid inner index *)
+  Lemma lend_nested_outer_out_l : forall f,
+    is_int64 i -> (i < 0 \/ Z.of_nat n <= i) ->
+    run_outs (seq_lend_nested n m f) outs_lend_nested [VArr cells; VInt i; VInt j] = Panic msg_op_oob.
+  Proof.
+    intros f Hi Ho.
+    unfold seq_lend_nested, seq_lend_nested_at, seq_nested_pre, seq_nested_post, outs_lend_nested, run_outs.
+    nstep. nop.
+    unfold op_sem at 1. cbn [sem_borrow]. rewrite (with_cell_out n cells i Hlen Hn) by assumption. reflexivity.
+  Qed.
+
+  Lemma lend_nested_inner_out_l : forall f,
+    0 <= i < Z.of_nat n -> length inner = m ->
+    nth_error cells (Z.to_nat i) = Some (Some (VArr inner)) ->
+    is_int64 j -> (j < 0 \/ Z.of_nat m <= j) ->
+    run_outs (seq_lend_nested n m f) outs_lend_nested [VArr cells; VInt i; VInt j] = Panic msg_op_oob.
+  Proof.
+    intros f Hi Hlm Hci Hj Ho.
+    unfold seq_lend_nested, seq_lend_nested_at, seq_nested_pre, seq_nested_post, outs_lend_nested, run_outs.
+    nstep. nop.
+    unfold op_sem at 1. cbn [sem_borrow]. rewrite (with_cell_in n cells i Hlen Hn) by assumption.
+    rewrite Hci. nstep. nop.
+    unfold op_sem at 1. cbn [sem_borrow]. rewrite (with_cell_out m inner j Hlm Hm) by assumption. reflexivity.
+  Qed.
+
+  (** `g(qs[bump(ctr)][c])`: the index oracle is consulted ONCE (the counter advances by one), the
+      element it named is the one lent and the one given back *)
+  Lemma lend_nested_oracle_l : forall g c k v,
+    i = k -> j = c -> Z.of_nat n < two63 ->
+    0 <= i < Z.of_nat n -> 0 <= j < Z.of_nat m -> length inner = m ->
+    nth_error cells (Z.to_nat i) = Some (Some (VArr inner)) ->
+    nth_error inner (Z.to_nat j) = Some (Some v) ->
+    run_outs (seq_lend_nested_oracle n m (OGate g) c) outs_lend_nested_oracle [VArr cells; VArr [Some (VInt k)]]
+    = Ok [VArr cells; VArr [Some (VInt (k + 1))]].
+  Proof.
+    intros g c k v Ek Ec Hn' Hi Hj Hlm Hci Hcj. subst k c.
+    pose proof (nth_error_lt _ _ _ _ Hci) as Hki. pose proof (nth_error_lt _ _ _ _ Hcj) as Hkj.
+    unfold seq_lend_nested_oracle, seq_lend_nested_at, seq_nested_pre, seq_nested_post, outs_lend_nested_oracle, run_outs.
+    nstep. unfold op_sem at 1. nstep. unfold op_sem at 1. cbn [sem_call String.eqb Ascii.eqb Bool.eqb]. nstep.
+    rewrite wrap_s_small by (unfold is_int64; pose proof two63_pos; lia).
+    nop.
+    unfold op_sem at 1. cbn [sem_borrow]. rewrite (with_cell_in n cells i Hlen Hn) by assumption.
+    rewrite Hci. nstep. nop.
+    unfold op_sem at 1. cbn [sem_borrow]. rewrite (with_cell_in m inner j Hlm Hm) by assumption.
+    rewrite Hcj. nstep. nop.
+    unfold op_sem at 1. cbn [sem_return].
+    rewrite (with_cell_in n _ i (eq_trans (upd_length _ _ _ _) Hlen) Hn) by assumption.
+    rewrite upd_same by assumption. nstep. rewrite upd_upd.
+    unfold op_sem at 1. nstep. nop.
+    unfold op_sem at 1. cbn [sem_borrow].
+    rewrite (with_cell_in n _ i (eq_trans (upd_length _ _ _ _) Hlen) Hn) by assumption.
+    rewrite upd_same by assumption. nstep. nop.
+    unfold op_sem at 1. cbn [sem_return].
+    rewrite (with_cell_in m _ j (eq_trans (upd_length _ _ _ _) Hlm) Hm) by assumption.
+    rewrite upd_same by assumption. nstep. nop.
+    unfold op_sem at 1. cbn [sem_return].
+    rewrite (with_cell_in n _ i (eq_trans (upd_length _ _ _ _) (eq_trans (upd_length _ _ _ _) Hlen)) Hn) by assumption.
+    rewrite upd_same by (rewrite upd_length; assumption). nstep.
+    rewrite !upd_upd. rewrite (upd_id _ inner) by assumption. rewrite upd_id by assumption. reflexivity.
+  Qed.
+
+  (** xs[i][j] read / write with copyable leaves *)
+  Lemma read_nested_l : forall v,
+    0 <= i < Z.of_nat n -> 0 <= j < Z.of_nat m -> length inner = m ->
+    nth_error cells (Z.to_nat i) = Some (Some (VArr inner)) ->
+    nth_error inner (Z.to_nat j) = Some (Some v) ->
+    run_outs (seq_get_nested n m) outs_get_nested [VArr cells; VInt i; VInt j] = Ok [v; VArr cells].
+  Proof.
+    intros v Hi Hj Hlm Hci Hcj.
+    pose proof (nth_error_lt _ _ _ _ Hci) as Hki.
+    unfold seq_get_nested, outs_get_nested, run_outs. nstep. nop.
+    unfold op_sem at 1. cbn [sem_borrow]. rewrite (with_cell_in n cells i Hlen Hn) by assumption.
+    rewrite Hci. nstep. nop.
+    unfold op_sem at 1. cbn [sem_get]. rewrite (with_cell_in m inner j Hlm Hm) by assumption.
+    rewrite Hcj. nstep. nop.
+    unfold op_sem at 1. cbn [sem_return].
+    rewrite (with_cell_in n _ i (eq_trans (upd_length _ _ _ _) Hlen) Hn) by assumption.
+    rewrite upd_same by assumption. nstep. rewrite upd_upd, upd_id by assumption. reflexivity.
+  Qed.
+
+  Lemma read_nested_inner_out_l :
+    0 <= i < Z.of_nat n -> length inner = m ->
+    nth_error cells (Z.to_nat i) = Some (Some (VArr inner)) ->
+    is_int64 j -> (j < 0 \/ Z.of_nat m <= j) ->
+    run_outs (seq_get_nested n m) outs_get_nested [VArr cells; VInt i; VInt j] = Panic msg_index_oob.
+  Proof.
+    intros Hi Hlm Hci Hj Ho.
+    unfold seq_get_nested, outs_get_nested, run_outs. nstep. nop.
+    unfold op_sem at 1. cbn [sem_borrow]. rewrite (with_cell_in n cells i Hlen Hn) by assumption.
+    rewrite Hci. nstep. nop.
+    unfold op_sem at 1. cbn [sem_get]. rewrite (with_cell_out m inner j Hlm Hm) by assumption.
+    nstep. nop. nop. reflexivity.
+  Qed.
+
+  Lemma write_nested_l : forall v old,
+    0 <= i < Z.of_nat n -> 0 <= j < Z.of_nat m -> length inner = m ->
+    nth_error cells (Z.to_nat i) = Some (Some (VArr inner)) ->
+    nth_error inner (Z.to_nat j) = Some (Some old) ->
+    run_outs (seq_set_nested n m) outs_set_nested [VArr cells; VInt i; VInt j; v]
+    = Ok [VArr (upd cells (Z.to_nat i) (Some (VArr (upd inner (Z.to_nat j) (Some v)))))].
+  Proof.
+    intros v old Hi Hj Hlm Hci Hcj.
+    pose proof (nth_error_lt _ _ _ _ Hci) as Hki.
+    unfold seq_set_nested, outs_set_nested, run_outs. nstep. nop.
+    unfold op_sem at 1. cbn [sem_borrow]. rewrite (with_cell_in n cells i Hlen Hn) by assumption.
+    rewrite Hci. nstep. nop.
+    unfold op_sem at 1. cbn [sem_set]. rewrite (with_cell_in m inner j Hlm Hm) by assumption.
+    rewrite Hcj. nstep. nop.
+    unfold op_sem at 1. cbn [sem_return].
+    rewrite (with_cell_in n _ i (eq_trans (upd_length _ _ _ _) Hlen) Hn) by assumption.
+    rewrite upd_same by assumption. nstep. rewrite upd_upd. reflexivity.
+  Qed.
 End Nested.
+
+(** specification-side reading: in a two-level array exactly cell (i, j) changed to [x] *)
+Definition only_cell_ij_changed (ki kj : nat) (x : option val) (a b : list (option val)) : Prop :=
+  exists ia ib, nth_error a ki = Some (Some (VArr ia)) /\ only_cell_changed ki (Some (VArr ib)) a b
+                /\ only_cell_changed kj x ia ib.
+
+Lemma lend_nested_pre_spec_l : forall n m cells inner i j v,
+  length cells = n -> Z.of_nat n <= two63 -> Z.of_nat m <= two63 ->
+  0 <= i < Z.of_nat n -> 0 <= j < Z.of_nat m -> length inner = m ->
+  nth_error cells (Z.to_nat i) = Some (Some (VArr inner)) ->
+  nth_error inner (Z.to_nat j) = Some (Some v) ->
+  exists cells', run_outs (seq_lend_nested_pre n m) outs_lend_nested_pre [VArr cells; VInt i; VInt j] = Ok [v; VArr cells']
+                 /\ only_cell_ij_changed (Z.to_nat i) (Z.to_nat j) None cells cells'.
+Proof.
+  intros n m cells inner i j v Hlen Hn Hm Hi Hj Hlm Hci Hcj. eexists. split.
+  - apply (lend_nested_pre_l n m cells inner i j Hlen Hn Hm v); assumption.
+  - exists inner, (upd inner (Z.to_nat j) None). split; [assumption|]. split.
+    + apply upd_only_cell_changed. eapply nth_error_lt; eassumption.
+    + apply upd_only_cell_changed. eapply nth_error_lt; eassumption.
+Qed.
+
+Lemma lend_nested_post_spec_l : forall n m cells inner i j w,
+  length cells = n -> Z.of_nat n <= two63 -> Z.of_nat m <= two63 ->
+  0 <= i < Z.of_nat n -> 0 <= j < Z.of_nat m -> length inner = m ->
+  nth_error cells (Z.to_nat i) = Some (Some (VArr inner)) ->
+  nth_error inner (Z.to_nat j) = Some None ->
+  exists cells', run_outs (seq_lend_nested_post n m) outs_lend_nested_post [VArr cells; VInt i; VInt j; w] = Ok [VArr cells']
+                 /\ only_cell_ij_changed (Z.to_nat i) (Z.to_nat j) (Some w) cells cells'.
+Proof.
+  intros n m cells inner i j w Hlen Hn Hm Hi Hj Hlm Hci Hcj. eexists. split.
+  - apply (lend_nested_post_l n m cells inner i j Hlen Hn Hm w); assumption.
+  - exists inner, (upd inner (Z.to_nat j) (Some w)). split; [assumption|]. split.
+    + apply upd_only_cell_changed. eapply nth_error_lt; eassumption.
+    + apply upd_only_cell_changed. eapply nth_error_lt; eassumption.
+Qed.
+
+Lemma write_nested_spec_l : forall n m cells inner i j v old,
+  length cells = n -> Z.of_nat n <= two63 -> Z.of_nat m <= two63 ->
+  0 <= i < Z.of_nat n -> 0 <= j < Z.of_nat m -> length inner = m ->
+  nth_error cells (Z.to_nat i) = Some (Some (VArr inner)) ->
+  nth_error inner (Z.to_nat j) = Some (Some old) ->
+  exists cells', run_outs (seq_set_nested n m) outs_set_nested [VArr cells; VInt i; VInt j; v] = Ok [VArr cells']
+                 /\ only_cell_ij_changed (Z.to_nat i) (Z.to_nat j) (Some v) cells cells'.
+Proof.
+  intros n m cells inner i j v old Hlen Hn Hm Hi Hj Hlm Hci Hcj. eexists. split.
+  - apply (write_nested_l n m cells inner i j Hlen Hn Hm v old); assumption.
+  - exists inner, (upd inner (Z.to_nat j) (Some v)). split; [assumption|]. split.
+    + apply upd_only_cell_changed. eapply nth_error_lt; eassumption.
+    + apply upd_only_cell_changed. eapply nth_error_lt; eassumption.
+Qed.
